@@ -31,8 +31,9 @@ def gen(rng, tier, no, wide=False):
                     args["stream"] = 7
                 elif rng.random() < 0.15:
                     del args["correlation"]      # a synchronisation record on stream -1 that carries no correlation id
+                lead = min(e["dur"], case["cfg"]["grid"] * rng.choice([0, 0, 1, 3]))     # the record may start after its host call
                 extra.append({"ph": "X", "cat": "cuda_sync", "name": nm, "pid": r, "tid": 7 if nm == "Stream Sync" else 0,
-                              "ts": e["ts"], "dur": e["dur"], "args": args})
+                              "ts": e["ts"] + lead, "dur": e["dur"] - lead, "args": args})
         for x in extra:
             ev.insert(rng.randint(1, len(ev)), x)
     return case
